@@ -43,6 +43,11 @@ CHECKS = {
             "DeadlineDecides (+ NoHang liveness) for seven contender configurations (direct both ways, relay, strangers, wrong-key "
             "peers); behaviours are replayed on a real TransitSender/TransitReceiver on the simulated TCP fabric with state "
             "comparison after every step; TransitSelObs.tla decides", "3/C07"),
+    "C12": ("DilationL2.tla: token-stream model of one L2 direction (relay reply, prologue, Noise handshake, KCM, records) with one "
+            "adversarial replacement at every position; TLC checks ManagerOnlyAfterKCM / NothingAfterFault / FaultDrops / "
+            "CleanDelivers and enumerates 76 record classes (7 types x id/seqnum boundary values x payload lengths around the Noise "
+            "packet limit x subprotocol names); every class is round-tripped and every (fault, position) executed on real "
+            "DilatedConnectionProtocol pairs under four fragmentations; DilationL2Obs.tla decides", "3/C12"),
     "C19": ("Codes.tla over a frozen copy of the PGP word lists: TLC checks that each list is a bijection from bytes and that every "
             "completion extends the typed prefix and is allocatable, and enumerates every typed prefix / short code string; the real "
             "get_completions / choose_words / validate_code are run on every enumerated case; the code-entry protocol (one of "
@@ -100,6 +105,8 @@ NOTES = {
            "judged only once a complete manipulated frame has been consumed",
     "C07": "<=3 contenders per configuration, a unit split at most once, scripted relay and strangers; HKDF-derived handshakes "
            "cannot be produced without the key",
+    "C12": "noiseprotocol is not installed: harness/stubs/noise stands in (real ChaCha20-Poly1305, 65535-byte limit); truncated tokens "
+           "and absurd length prefixes leave the receiver waiting and are not required to drop",
     "C19": "the word lists in the spec are a frozen copy of the pinned commit; os.urandom is assumed uniform; TLC enumerates all "
            "prefixes of all words for 2 (thorough: 3) word codes; code-entry schedules as for the mailbox checks",
     "C20": "field values are abstracted to JSON kinds (str/int/float/bool/null/list/dict/missing) with a few concrete "
